@@ -67,8 +67,17 @@ structure Oracles where
   proto : Nat                     -- transport.GetProto()
   geoOk : Bool                    -- GeoIP.CC / ASN succeed
   covertOk : Bool                 -- ParseOrResolveBlocklisted(covert) ≠ ""
-  live : Bool                     -- what the liveness tester answers for the IPv4 phantom
+  live : Bool                     -- what the liveness tester answers for the IPv4 phantom: the boolean of its verdict
   ident : String                  -- transport.GetIdentifier(reg)
+  /-- the error component of the liveness verdict `(live, err)`: 0 = the tester's usual companion of the boolean (`NotLive` /
+  `ErrLiveHost`), 1 = nil, 2 = `ErrCachedPhantom` (answered from the cache), 3 = some other error, 4 = a context error,
+  5 = the companion of the *other* boolean.  `ingestRegistration` decides on the boolean alone (`if live { drop }`): no
+  function of the model reads this field (`CJ.Props.C07.verdict_error_irrelevant`). -/
+  liveErr : Nat := 0
+  /-- how the peer-station API answers a share request: 0 = 2xx, 1 = 4xx, 2 = 5xx, 3 = takes the request and closes without
+  a reply, 4 = slow 2xx, 5 = unreachable.  The share is fire-and-forget (`go tryShareRegistrationOverAPI`, one POST, the
+  outcome is logged): no function of the model reads this field (`CJ.Props.C07.peer_answer_irrelevant`). -/
+  peer : Nat := 0
 deriving DecidableEq, Repr
 
 /-- the transport's verdicts on the registrar's parameter override (`RegistrationResponse.TransportParams`) -/
